@@ -99,7 +99,26 @@ def numeric_bijection(ctx, name, obj, shape, rs, rep, unit_interval=False):
     if float((ldj + ildj).abs().max()) > 1e-6 * (1 + float(ildj.abs().max())):
         ctx.violation('c15-ldj-antisymmetry:' + name, f'{name}: forward log-det {ldj.tolist()} is not minus the backward log-det {ildj.tolist()}', replay=rep)
         return False
+    # latent first, tails included (|u| up to ~8): data = forward(latent) must invert back to the SAME latent and report the log-det
+    # of the map actually applied (a sampler starts from the latent; starting every test from the data never leaves its range)
+    ul = torch.randn((2,) + shape, generator=g, dtype=torch.float64) * 2.5
+    with torch.no_grad():
+        xl, ldjl = obj.apply_forward(ul)
+        ul2, ildjl = obj.apply_backward(xl)
+    scale_l = 1.0 + float(ul.abs().max())
+    if not torch.isfinite(xl).all() or not torch.allclose(ul2, ul, atol=1e-6 * scale_l, rtol=1e-6):
+        ctx.violation('c15-roundtrip-latent-first:' + name, f'{name}: apply_backward(apply_forward(u)) != u for a latent u with tail values '
+                                                            f'(max deviation {float((ul2 - ul).abs().max()):.3e}, max |u| {float(ul.abs().max()):.2f})', replay=rep)
+        return False
+    ldjl = torch.as_tensor(ldjl, dtype=torch.float64).expand(2) if not torch.is_tensor(ldjl) or ldjl.dim() == 0 else ldjl
     d = int(np.prod(shape))
+    if d <= 64:
+        Jf = torch.autograd.functional.jacobian(lambda v: obj.apply_forward(v)[0], ul[0:1]).reshape(d, d).numpy()
+        sign, logabs = np.linalg.slogdet(Jf)
+        ctx.count('jacobians-latent-first')
+        if not math.isfinite(logabs) or abs(logabs - float(ldjl[0])) > 1e-6 * (1 + abs(logabs)):
+            ctx.violation('c15-logdet-latent-first:' + name, f'{name}: reported forward log-det {float(ldjl[0])!r} at a latent with tail values, but log|det J| = {logabs!r}', replay=rep)
+            return False
     if d <= 64:
         for b in range(1):
             xb = x[b:b + 1]
@@ -225,6 +244,18 @@ def run(ctx):
     for k in range(n_layers):
         rs = np.random.RandomState(np_seed(ctx.sub_rng('layer', k)))
         kind = k % 3
+        if k % 5 == 4:
+            # the logit pre-processing step on its own (models apply it outside apply_forward / apply_backward)
+            from deeprob.flows.utils import LogitLayer
+            alpha = float(rs.choice([0.01, 0.05, 0.2, 1e-6]))
+            shape = (int(rs.randint(1, 7)),) if rs.rand() < 0.6 else (1, 2, 2)
+            rep = dict(kind='c15-layer', layer='LogitLayer', shape=list(shape), alpha=alpha, k=k)
+            ctx.case('layer', nontrivial_key=json.dumps(rep, sort_keys=True), sample=rep)
+            ctx.count('layer:LogitLayer')
+            numeric_bijection(ctx, 'LogitLayer', randomize(LogitLayer(shape if len(shape) > 1 else shape[0], alpha), rs), shape, rs, rep, unit_interval=True)
+            if ctx.n_new(with_input_only=True) >= 3:
+                return
+            continue
         if kind == 0:
             n = int(rs.randint(1, 10)); affine = bool(rs.rand() < 0.7); rev = bool(rs.rand() < 0.5)
             rep = dict(kind='c15-layer', layer='CouplingLayer1d', n=n, affine=affine, reverse=rev, k=k)
